@@ -55,6 +55,125 @@ def gen_buffers(rnd, maxlen, nbase, nprefix):
     return out
 
 
+def discriminant_pins(s):
+    """(byte offset, constant) for every `field == constant` condition of s whose field is a
+    one-byte unsigned scalar at a static offset."""
+    at = {}
+    for f in s.fields:
+        if not f.is_virtual and not f.is_anon and f.typ is not None and not f.typ.dims and f.typ.kind == "UInt" and f.typ.bits == 8 and f.start[0] == "n" and f.size == ("n", 1):
+            at[f.name] = f.start[1]
+    pins = set()
+
+    def walk(e):
+        if not isinstance(e, tuple):
+            return
+        if e[0] == "op" and e[1] == "==":
+            for a, b in ((e[2], e[3]), (e[3], e[2])):
+                if a[0] == "r" and len(a[1]) == 1 and a[1][0] in at and b[0] == "n" and 0 <= b[1] <= 255:
+                    pins.add((at[a[1][0]], b[1]))
+        for x in e[1:]:
+            if isinstance(x, tuple):
+                walk(x)
+            elif isinstance(x, list):
+                for y in x:
+                    walk(y)
+
+    for f in s.fields:
+        for g in [f] + (f.anon or []):
+            walk(g.cond)
+    return sorted(pins)
+
+
+def extreme_buffers(rnd, I, s, params, maxlen, cap=36):
+    """Buffers in which multi-byte integer fields at static offsets hold the extremes of their
+    range (all ones, sign bit only, all but the sign bit), alone and in pairs: arithmetic over
+    fields is only wrong at such values when an intermediate C++ type is too narrow."""
+    n = maxlen + 1
+    targets = []
+    probe = RI.StructView(I, s, params, bytes(n))
+    for f in s.fields:
+        t = f.typ
+        if f.is_virtual or f.is_anon or t is None or t.dims or t.kind not in ("UInt", "Int") or f.start[0] != "n" or f.size[0] != "n":
+            continue
+        nb = f.size[1]
+        if nb < 2 or f.start[1] + nb > n:
+            continue
+        try:
+            bo = RI.effective_byte_order(probe, f)
+        except Exception:
+            continue
+        targets.append((f.start[1], nb, "big" if bo == "BigEndian" else "little"))
+    if not targets:
+        return []
+    out = []
+
+    def put(b, tgt, v):
+        off, nb, order = tgt
+        return b[:off] + v.to_bytes(nb, order) + b[off + nb :]
+
+    def extremes(nb):
+        full = (1 << (8 * nb)) - 1
+        return [full, full >> 1, (full >> 1) + 1, full - 1]
+
+    bases = [bytes(n), bytes(byte_pool(rnd) for _ in range(n))]
+    for base in bases:
+        for tgt in targets:
+            for v in extremes(tgt[1]):
+                out.append((put(base, tgt, v), [n]))
+        for _ in range(6):
+            b = base
+            for tgt in rnd.sample(targets, min(len(targets), rnd.choice([2, 2, 3]))):
+                b = put(b, tgt, rnd.choice(extremes(tgt[1])))
+            out.append((b, [n]))
+    rnd.shuffle(out)
+    return out[:cap]
+
+
+def near_ok_buffers(rnd, I, s, params, maxlen, want=3, tries=60, max_variants=40):
+    """Buffers on which the reference says the view is Ok, plus single-byte corruptions of them.
+
+    Random contents almost never make *every* present field valid at once, so the
+    interesting boundary - exactly one present field invalid, everything else fine -
+    is unreachable by garbage alone.  Search for Ok buffers with the reference
+    interpreter, then damage one byte at a time (0xFF breaks Bcd and most [requires],
+    small values flip discriminants and lengths).  Full length only: prefixes are
+    covered by gen_buffers."""
+    out = []
+    found = 0
+    pins = discriminant_pins(s)
+    for _ in range(tries):
+        n = maxlen + rnd.choice([0, 0, 1, 2])
+        k = rnd.random()
+        if k < 0.35:
+            b = bytes(byte_pool(rnd) for _ in range(n))
+        elif k < 0.75:
+            b = bytes(rnd.choice([0, 0, 0, 1, 2, 3, 4, 5]) for _ in range(n))
+        else:
+            b = bytes([rnd.choice([0, 1, 2, 0x11, 0x22])] * n)
+        if pins and rnd.random() < 0.6:
+            # make a `tag == constant` condition true, so that guarded fields are present
+            off, c = rnd.choice(pins)
+            if off < n:
+                b = b[:off] + bytes([c]) + b[off + 1 :]
+        try:
+            ok = RI.StructView(I, s, params, b).ok()
+        except Exception:
+            ok = False
+        if not ok:
+            continue
+        found += 1
+        out.append((b, [len(b)]))
+        positions = list(range(len(b)))
+        rnd.shuffle(positions)
+        for i in positions[: max_variants // 2]:
+            for v in (0xFF, rnd.choice([0, 1, 2, 3, 4, 5, 0x7F, 0x80, 0x9A, 0xA0, 100, 200])):
+                if b[i] != v:
+                    out.append((b[:i] + bytes([v]) + b[i + 1 :], [len(b)]))
+        if found >= want:
+            break
+    return out
+
+
 def struct_maxlen(s):
     hi = 0
     for f in s.fields:
@@ -128,6 +247,9 @@ def build_case_model(m, feats, rnd, nbase, nprefix, buffer_plan=None, aligned_fn
         for _ in range(2 if s.params else 1):
             pv = param_values(rnd, s)
             plan = buffer_plan(s) if buffer_plan else gen_buffers(rnd, maxlen, nbase, nprefix)
+            if not buffer_plan:
+                plan = plan + near_ok_buffers(rnd, I, s, dict(zip([p for p, _ in s.params], pv)), maxlen)
+                plan = plan + extreme_buffers(rnd, I, s, dict(zip([p for p, _ in s.params], pv)), maxlen)
             for base, lens in plan:
                 group = (si, tuple(pv), base)
                 for n in lens:
@@ -179,6 +301,7 @@ def compare(case, outputs, stats, quick):
     m = case["module"]
     exp = case["expect"]
     nfail = 0
+    per_sig = {}
     if len(outputs) != len(exp):
         stats.fail({"kind": "driver-output-count"}, {"text": case["text"]}, "driver printed %d cases, expected %d" % (len(outputs), len(exp)))
         return
@@ -210,10 +333,16 @@ def compare(case, outputs, stats, quick):
                 suffix = k.split(".")[-1]
                 suffix = "has_" if suffix.startswith("has_") else suffix
                 sig = {"kind": "observation-mismatch", "obs": suffix, "field": field_kind_of(m, e["struct"], k), "truncated-array": "yes" if known_area else "no"}
-                if nfail < 12:
+                sk = vlib.h(sig)
+                per_sig[sk] = per_sig.get(sk, 0) + 1
+                if (nfail < 12 and not case.get("per_observation")) or (case.get("per_observation") and per_sig[sk] <= 3):
                     stats.fail(sig, {"text": case["text"], "struct": e["struct"], "params": e["params"], "buf": e["buf"]}, "key %s: generated code reports %s, reference says %s\n(buffer %s, params %s)" % (k, gd[k], v, e["buf"], e["params"]))
                 nfail += 1
-                break
+                if not case.get("per_observation"):
+                    # later observations of the same view may merely follow from this one
+                    break
+                # independent scalar observations (C02-style modules): keep comparing, so that one
+                # (possibly already recorded) defect does not hide another in the same view
         extra = [k for k in gd if k not in wd]
         missing = [k for k in wd if k not in gd]
         if (extra or missing) and nfail < 12:
